@@ -36,7 +36,18 @@ mod private {
             let offset = stream.tell();
             let mut serializer = Serializer::new(BlockCheck::Crc32);
             self.serialize_tail(&mut serializer)?;
-            let size = stream.write_serializer(serializer)?.into();
+            let size: ASize = stream.write_serializer(serializer)?.into();
+            // The size is stored on 16 bits (see SizedOffset). Do not store a truncated size.
+            if size.into_u64() > 0xFFFF {
+                return Err(std::io::Error::new(
+                    std::io::ErrorKind::InvalidData,
+                    format!(
+                        "Tail is too big to be referenced ({} bytes, max is 65535)",
+                        size.into_u64()
+                    ),
+                )
+                .into());
+            }
             Ok(SizedOffset { size, offset })
         }
     }
